@@ -25,11 +25,26 @@
    depth_after toks 0 = 0; no_free_close toks 0 = true means no `}` is met at
    depth 0.
 
-   What is NOT proved: the strict half for a lost \end{name} / `]` is proved
-   only for a construct that follows a prefix of text-leaf tokens at the top
-   level and has NO later Escape+`end` pair / no later `]` (a later one may
-   legitimately compensate the loss: lost_closer_compensated_refuted); the
-   lost closing brace of a \begin{name} group itself is outside `plain`. *)
+   escan toks d : the environment counter (the token after an Escape token is a
+   command name; a name `begin` +1, a name `end` -1 when positive, a free \end
+   at depth 0 ignored; every other token neutral); env_matched toks means
+   escan toks 0 = 0; no_free_end toks = true means no \end is met at depth 0.
+     envtidy SK toks = nospecial toks   no Escape followed by newcommand /
+                                        renewcommand / providecommand
+                    && sig_ok toks      a name of the fixed-signature table with
+                                        required arguments (def textbf section label)
+                                        only as \name{ with ONE required argument
+                                        (so no bare-token argument is ever taken)
+                    && begins_ok SK toks
+
+   What is NOT proved: for a lost `]` the strict half is proved only for a
+   command that follows a prefix of text-leaf tokens at the top level and has
+   no later `]` (a `[` that does not follow a command is plain text, so there is
+   no bracket counter; a later free `]` legitimately compensates the loss:
+   lost_closer_compensated_refuted).  The lost closing brace of a \begin{name}
+   group itself is outside `plain`.  The exact error class (TypeError for a
+   brace, EOFError for an \end) is computed in the examples, not proved in
+   general: the theorems give "EOFError or TypeError". *)
 From Coq Require Import List NArith ZArith Bool.
 From TexModel Require Import Base Tables Chars Tokenizer Tree Reader.
 From TexProofs Require Import ReaderLen ReaderTotal ReaderCons AttachProofs RepairProofs.
@@ -134,6 +149,31 @@ Theorem C07_braces_matched_without_tidy_refuted :
 Proof. exact braces_matched_without_tidy_refuted. Qed.
 Print Assumptions C07_braces_matched_without_tidy_refuted.
 
+(* Stage 2 without esc_ok, for ALL token lists on which no \begin opens a skip
+   environment.  bscan = the brace counter that skips the token after an
+   Escape token (the command name) whatever its category - as the reader does;
+   on esc_ok lists it equals depth_after *)
+Theorem C07_strict_success_braces_matched_general :
+  forall (toks : list token) (user : list str) (t : expr),
+    begins_ok (Tables.skip_env_names ++ user) toks = true ->
+    parse_tokens toks true user = Ok t -> bscan toks 0 = 0%nat.
+Proof. exact strict_success_braces_matched_general. Qed.
+Print Assumptions C07_strict_success_braces_matched_general.
+
+Theorem C07_unmatched_brace_strict_fails_general :
+  forall (toks : list token) (user : list str),
+    begins_ok (Tables.skip_env_names ++ user) toks = true -> bscan toks 0 <> 0%nat ->
+    parse_tokens toks true user = Err EOFError \/
+    parse_tokens toks true user = Err TypeError \/
+    parse_tokens toks true user = Err AssertionError.
+Proof. exact unmatched_brace_strict_fails_general. Qed.
+Print Assumptions C07_unmatched_brace_strict_fails_general.
+
+Theorem C07_bscan_depth_after :
+  forall toks, esc_ok toks = true -> forall d, bscan toks d = depth_after toks d.
+Proof. exact bscan_depth_after. Qed.
+Print Assumptions C07_bscan_depth_after.
+
 (* ---- Stage 3: a lost \end{name}, a lost `]` *)
 
 (* a strict environment body ends AT an Escape+`end` pair, at every fuel and
@@ -200,6 +240,50 @@ Theorem C07_lost_closer_compensated_refuted :
      parse_tokens (firstn 6 toks ++ skipn 11 toks) true [] = Ok t').
 Proof. exact lost_closer_compensated_refuted. Qed.
 Print Assumptions C07_lost_closer_compensated_refuted.
+
+(* ---- Stage 3+: a strict success matched every \begin (counting) *)
+Theorem C07_strict_success_envs_matched :
+  forall (toks : list token) (user : list str) (t : expr),
+    envtidy (Tables.skip_env_names ++ user) toks = true ->
+    parse_tokens toks true user = Ok t -> escan toks 0 = 0%nat.
+Proof. exact strict_success_envs_matched. Qed.
+Print Assumptions C07_strict_success_envs_matched.
+
+Theorem C07_unmatched_env_strict_fails :
+  forall (toks : list token) (user : list str),
+    envtidy (Tables.skip_env_names ++ user) toks = true -> escan toks 0 <> 0%nat ->
+    parse_tokens toks true user = Err EOFError \/
+    parse_tokens toks true user = Err TypeError \/
+    parse_tokens toks true user = Err AssertionError.
+Proof. exact unmatched_env_strict_fails. Qed.
+Print Assumptions C07_unmatched_env_strict_fails.
+
+(* clause 2 for a lost \end{name}: a ++ [e; n] ++ g ++ b is environment-matched
+   without free \end, e is an Escape token in command position (pend false a =
+   false), n has text `end`, g (the name group) holds no Escape token; the
+   damaged list a ++ b is rejected strictly and accepted tolerantly - wherever
+   the environment is nested and whatever follows *)
+Theorem C07_lost_end_repaired_count :
+  forall (a : list token) (e n : token) (g b : list token) (user : list str),
+    pend false a = false -> is_tc TEscape e = true -> is_e n = true -> no_escape g = true ->
+    escan (a ++ e :: n :: g ++ b) 0 = 0%nat -> no_free_end (a ++ e :: n :: g ++ b) = true ->
+    plain (Tables.skip_env_names ++ user) (a ++ b) = true ->
+    nospecial (a ++ b) = true -> sig_ok (a ++ b) = true ->
+    (parse_tokens (a ++ b) true user = Err EOFError \/
+     parse_tokens (a ++ b) true user = Err TypeError) /\
+    exists t, parse_tokens (a ++ b) false user = Ok t.
+Proof. exact lost_end_repaired_count. Qed.
+Print Assumptions C07_lost_end_repaired_count.
+
+(* `envtidy` is necessary: \textbf\begin{e} x  and  \newcommand{\begin{x}}  are
+   accepted strictly with an unmatched \begin *)
+Theorem C07_envs_matched_without_envtidy_refuted :
+  (exists toks t, sig_ok toks = false /\ nospecial toks = true /\ begins_ok SK0 toks = true /\
+                  parse_tokens toks true [] = Ok t /\ escan toks 0 = 1%nat) /\
+  (exists toks t, sig_ok toks = true /\ nospecial toks = false /\ begins_ok SK0 toks = true /\
+                  parse_tokens toks true [] = Ok t /\ escan toks 0 = 1%nat).
+Proof. exact envs_matched_without_envtidy_refuted. Qed.
+Print Assumptions C07_envs_matched_without_envtidy_refuted.
 
 (* ---- non-vacuity (all replayed on the real code, impl.canon_parse) *)
 
@@ -273,3 +357,19 @@ Example C07_ex_tolerant_needs_side_conditions :
   (noitem (toks_of doc_item_strict) = false /\
    parse_tokens (toks_of doc_item_strict) false [] = Err TypeError).
 Proof. exact tolerant_total_needs_side_conditions. Qed.
+
+(* \begin{d} u \begin{e} x \end{e} v \end{d}  minus the inner \end{e}: the
+   following \end{d} does not compensate; EOFError strictly,
+   \begin{d} u \begin{e} x  v \end{e}\end{d} tolerantly *)
+Example C07_ex_lost_end_nested :
+  let toks := toks_of doc_nested_env in
+  let a := firstn 12 toks in let e := nth 12 toks dflt in let n := nth 13 toks dflt in
+  let g := firstn 3 (skipn 14 toks) in let b := skipn 17 toks in
+  toks = a ++ e :: n :: g ++ b /\ texts (a ++ b) = doc_nested_env_lost /\
+  pend false a = false /\ is_tc TEscape e = true /\ is_e n = true /\ no_escape g = true /\
+  env_matched (a ++ e :: n :: g ++ b) /\ no_free_end (a ++ e :: n :: g ++ b) = true /\
+  plain SK0 (a ++ b) = true /\ nospecial (a ++ b) = true /\ sig_ok (a ++ b) = true /\
+  has_end b = true /\
+  parse_tokens (a ++ b) true [] = Err EOFError /\
+  shown (parse_tokens (a ++ b) false []) = inl doc_nested_env_fixed.
+Proof. exact lost_end_count_ex. Qed.
